@@ -641,6 +641,39 @@ class Simplify(Family):
             d = clean_desc(gen_ts.random_desc(rng, max_nodes=12 if big else 8, max_L=8 if big else 6,
                                               max_sites=5 if big else 3))
             yield {"desc": d, "samples": random_samples(rng, d), "opts": random_opts(rng)}
+        q = tier == "quick"
+        # (extension round) blind spots of the stream above
+        # 1. larger tree sequences (13..30 nodes, up to 12 breakpoints, up to 8 chosen
+        #    samples): oracle only, the Coq terms are limited to 10 nodes
+        for _ in range(150 if q else 3000):
+            d = clean_desc(gen_ts.random_desc(rng, max_nodes=30, max_L=12, max_sites=8, max_muts=6))
+            yield {"desc": d, "samples": random_samples(rng, d, maxk=8), "opts": random_opts(rng), "stream": "large"}
+        # 2. keep_unary_in_individuals with individuals actually attached to unary nodes
+        #    (deep chains: small root probability), individuals with parents
+        for _ in range(200 if q else 4000):
+            while True:
+                d = clean_desc(gen_ts.random_desc(rng, max_nodes=9, max_L=4, p_root=0.05, p_gap=0.05))
+                if d["individuals"] and sum(1 for nd in d["nodes"] if nd[3] != NULL) >= 2:
+                    break
+            o = random_opts(rng)
+            o["keep_unary"], o["keep_unary_in_individuals"] = False, True
+            yield {"desc": d, "samples": random_samples(rng, d, maxk=3), "opts": o, "stream": "kui"}
+        # 3. population / individual filters: every node references a population and an
+        #    individual, few chosen samples (most references disappear), filters on and off,
+        #    individual parents pointing at individuals that get removed
+        for _ in range(150 if q else 3000):
+            while True:
+                d = clean_desc(gen_ts.random_desc(rng, max_nodes=8, max_L=3))
+                if d["individuals"] and d["populations"] and d["nodes"]:
+                    break
+            ni, npop = len(d["individuals"]), len(d["populations"])
+            d["nodes"] = [[f, t, rng.randrange(npop) if rng.random() < 0.9 else NULL,
+                           rng.randrange(ni) if rng.random() < 0.9 else NULL, m] for f, t, p, i, m in d["nodes"]]
+            d["individuals"] = [[fl, loc, [rng.choice([NULL] + list(range(k)) * 3) for _ in range(rng.randrange(0, 3))], m]
+                                for k, (fl, loc, par, m) in enumerate(d["individuals"])]
+            o = random_opts(rng)
+            o["filter_populations"], o["filter_individuals"] = rng.random() < 0.5, rng.random() < 0.5
+            yield {"desc": d, "samples": random_samples(rng, d, maxk=2), "opts": o, "stream": "refs"}
 
     def observe(self, case):
         return run_simplify(case)
@@ -655,7 +688,8 @@ class Simplify(Family):
         return len(case["samples"]) >= 2 and len(case["desc"]["edges"]) >= 2 and "out" in obs
 
     def describe(self, case, obs):
-        return {"num_samples": len(case["samples"]),
+        return {"stream": case.get("stream", "main"), "num_nodes_bucket": min(len(case["desc"]["nodes"]) // 5, 6),
+                "num_samples": len(case["samples"]),
                 "options": "+".join(o for o in OPTS if case["opts"][o]) or "none",
                 "nonsample_chosen": any(not (case["desc"]["nodes"][s][0] & 1) for s in case["samples"]),
                 "out_edges": min(len(obs.get("out", {}).get("edges", [])), 12),
